@@ -153,9 +153,9 @@ func leafString(t *T, v *V) string {
 		for _, e := range v.Elems {
 			parts = append(parts, leafString(t.Elems[0], e))
 		}
-		if t.K == "s" {
-			sort.Strings(parts)
-		}
+		// always as a multiset: the string only aligns elements of an unordered container on
+		// the two sides, and a set on one side may be an array on the other
+		sort.Strings(parts)
 		return "[" + strings.Join(parts, ",") + "]"
 	case "m":
 		var parts []string
